@@ -32,6 +32,10 @@ using namespace VATA;
 #ifndef CT
 #define CT NQ      // constructor argument "least number of states"; with CT < NQ the number of states follows from the edges
 #endif
+#ifndef FILL
+#define FILL 0     // number of additional concrete "filler" states NQ..NQ+FILL-1, each with one self loop on label 0: they are
+#endif             // disconnected from the symbolic core (so the core's simulation is unchanged) but make the engine use
+                   // several counter rows (a row holds 31 (label,state) pairs with outgoing transitions)
 typedef LU::SymLTS<NQ, NL> SL;
 
 extern "C" void harness(void)
@@ -50,12 +54,14 @@ extern "C" void harness(void)
 #endif
   // number of states: the constructor argument, raised by the edges
   unsigned ns = T.usedStates(); ns = ns < CT ? CT : ns;
+  if (FILL) ns = NQ + FILL;
   vs_assume(ns >= 1);            // the engine requires a non-empty state set (documented by its assertions)
   vs_assume(out <= ns);
 
   // ---- the system under test
   ExplicitLTS lts(CT);
   T.build(lts);
+  for (unsigned i = 0; i < FILL; ++i) lts.addTransition(NQ + i, 0, NQ + i);
   lts.init();
   CHECK(lts.states() == ns, 1);
 
